@@ -127,6 +127,14 @@ def rule_integer_path(ctx, rid="R9.3"):
             if n.id in true_reach and not any(wh in ("body", "handler") for (_t, wh) in n.trys):
                 continue
             todo.extend(y for (l, y) in n.succ if l != "exc" or any(wh == "body" for (_t, wh) in n.trys))
+        # the float quotient may only be formed when the divisor itself is a float
+        from .c02 import only_via_edge
+        for n in cfg.live:
+            for e in node_exprs(n):
+                for sub in walk_expr(e):
+                    if isinstance(sub, ast.BinOp) and isinstance(sub.op, ast.Div) and norm(sub.left) == ip and norm(sub.right) == vp:
+                        if not only_via_edge(cfg, n, [(t, "true")], True):
+                            bad.append((n, sub))
         first = [m for m in mods if not any(wh == "handler" for (_t, wh) in m[0].trys)]
         if first and not bad:
             r.ok(site(f, first[0][1]) + " %s" % where, "integer-divisor path: %s" % norm(first[0][0].ast)[:60])
@@ -188,6 +196,43 @@ def rule_verdict_depends(ctx, rid="R9.4"):
     return r
 
 
+def rule_overflow_reaches_fallback(ctx, rid="R9.5"):
+    """On the float path the quotient may be infinite; the fast verdict must go through an operation that raises on +-inf
+    (int(), math.floor/ceil/trunc) inside the try whose OverflowError handler computes the exact verdict, or be guarded by an
+    explicit isinf/isfinite test."""
+    prog = ctx.prog
+    calls = calls_of(prog)
+    r = ctx.rule(rid, "a float quotient that overflowed to infinity reaches the exact (Fraction) fallback instead of deciding the verdict", floor=1)
+    for f, where in multiple_of_funcs(prog).items():
+        cfg = cfg_of(f)
+        rd = reaching_defs(cfg)
+        ip, vp = calls.param_with_role(f, "instance"), calls.param_with_role(f, "value")
+        qdefs = [n for n in cfg.live if n.kind == "stmt" and isinstance(n.ast, ast.Assign) and isinstance(n.ast.value, ast.BinOp)
+                 and isinstance(n.ast.value.op, ast.Div) and isinstance(n.ast.targets[0], ast.Name)]
+        if not qdefs:
+            r.ok(site(f), "no float quotient is formed")
+            continue
+        for qd in qdefs:
+            q = qd.ast.targets[0].id
+            users = [n for n in cfg.live if n is not qd and qd.id in rd[n.id].get(q, ()) and any(
+                isinstance(x, ast.Name) and x.id == q for e in node_exprs(n) for x in walk_expr(e))]
+            for u in users:
+                txt = " ".join(norm(e) for e in node_exprs(u))
+                raising = any(isinstance(c, ast.Call) and norm(c.func) in ("int", "math.floor", "math.ceil", "math.trunc", "floor", "ceil", "trunc", "round")
+                              and c.args and norm(c.args[0]) == q for e in node_exprs(u) for c in walk_expr(e))
+                guarded = any(isinstance(c, ast.Call) and norm(c.func).split(".")[-1] in ("isinf", "isfinite") for e in node_exprs(u) for c in walk_expr(e))
+                trys = [t for (t, wh) in u.trys if wh == "body"]
+                handled = any(h.type is not None and any(nm in ("OverflowError", "ArithmeticError", "Exception") for nm in [norm(x).split(".")[-1] for x in (h.type.elts if isinstance(h.type, ast.Tuple) else [h.type])])
+                              for t in trys for h in t.handlers)
+                if (raising and handled) or guarded:
+                    r.ok(site(f, u.ast), "`%s`: int() of an infinite quotient raises OverflowError into the exact fallback" % txt[:60])
+                else:
+                    r.fail("%s|infinite-quotient-decides|%s" % (f.qual, txt[:50]), site(f, u.ast),
+                           "`%s` decides from a quotient that may have overflowed to infinity without raising: the exact fallback is never reached "
+                           "(1e308 is a multiple of 0.5, the float quotient is inf)" % txt[:70])
+    return r
+
+
 def run(ctx):
     ctx.explanation = (
         "C09 structural clauses: R9.1 the kind interpreter restricted to numeric operands ({int of unbounded size, finite float} "
@@ -202,3 +247,4 @@ def run(ctx):
     rule_raw_comparison(ctx)
     rule_integer_path(ctx)
     rule_verdict_depends(ctx)
+    rule_overflow_reaches_fallback(ctx)
